@@ -124,6 +124,14 @@ func flight4bGenerate(
 	); err != nil {
 		return nil, nil, err
 	}
+	// Like the connection IDs and the SRTP profile, the protocol is committed from
+	// the ServerHello that is actually sent: the message hook may have changed it.
+	state.NegotiatedProtocol = ""
+	for _, value := range serverHelloMessage.Extensions {
+		if selection, ok := value.(*extension.ALPNSelection); ok {
+			state.NegotiatedProtocol = selection.Protocol
+		}
+	}
 	decision := negotiation.DecideConnectionID(offer, serverHelloMessage.Extensions)
 	serverHello := handshake.Handshake{Message: serverHelloMessage}
 
